@@ -561,7 +561,7 @@ class Dense(Monitor):
                 want = ref(tau)
                 err = float(np.max(np.abs(got - want)))
                 smax_ = float(max(np.max(np.abs(slopes[j])), np.max(np.abs(slopes[j + 1]))))
-                bound = 64 * eps * max(sc, 1e-300) + 8 * eps * max(abs(_f(tau)), 1.0) * smax_       # + slope * time resolution
+                bound = 256 * eps * max(sc, 1e-300) + 8 * eps * max(abs(_f(tau)), 1.0) * smax_       # + slope * time resolution
                 world.ratio(P + ".containing_piece", err / bound)
                 if err > bound:
                     world.violate(P, P + ".containing_piece", "sol(%r) in step %d [%r,%r] differs from that step's Hermite piece by %.3e (> %.3e)"
